@@ -20,7 +20,7 @@
 //! stdout:
 //!   R <seq> <tid> <id> <OK|ERR|PANIC|PARSE> <text> <spans>
 //!   B <seq> <file:line:op:len:order_sig:canon_sig>,...     (hooked build; one per expansion)
-//!   S <9 shim counters> <env names looked up during expansions> <shim flags>
+//!   S <9 shim counters> <env names looked up during expansions> <shim flags> <fs/identity calls during expansions> <their paths/names>
 
 use std::io::{Read, Write};
 use std::sync::mpsc::{channel, Receiver, Sender};
@@ -36,6 +36,7 @@ type MarkFn = unsafe extern "C" fn(i32);
 type CountersFn = unsafe extern "C" fn(*mut u64, i32) -> i32;
 type NamesFn = unsafe extern "C" fn() -> *const std::os::raw::c_char;
 type ActiveFn = unsafe extern "C" fn() -> i32;
+type FsCountFn = unsafe extern "C" fn() -> u64;
 
 extern "C" {
     fn dlsym(handle: *mut std::ffi::c_void, symbol: *const std::os::raw::c_char) -> *mut std::ffi::c_void;
@@ -47,6 +48,8 @@ struct Shim {
     counters: Option<CountersFn>,
     names: Option<NamesFn>,
     active: Option<ActiveFn>,
+    fs_names: Option<NamesFn>,
+    fs_count: Option<FsCountFn>,
 }
 
 fn find_shim() -> Shim {
@@ -58,11 +61,15 @@ fn find_shim() -> Shim {
         let c = sym(b"sim_counters\0");
         let n = sym(b"sim_env_names\0");
         let a = sym(b"sim_active\0");
+        let fnames = sym(b"sim_fs_names\0");
+        let fcount = sym(b"sim_fs_count\0");
         Shim {
             mark: if m.is_null() { None } else { Some(std::mem::transmute::<*mut std::ffi::c_void, MarkFn>(m)) },
             counters: if c.is_null() { None } else { Some(std::mem::transmute::<*mut std::ffi::c_void, CountersFn>(c)) },
             names: if n.is_null() { None } else { Some(std::mem::transmute::<*mut std::ffi::c_void, NamesFn>(n)) },
             active: if a.is_null() { None } else { Some(std::mem::transmute::<*mut std::ffi::c_void, ActiveFn>(a)) },
+            fs_names: if fnames.is_null() { None } else { Some(std::mem::transmute::<*mut std::ffi::c_void, NamesFn>(fnames)) },
+            fs_count: if fcount.is_null() { None } else { Some(std::mem::transmute::<*mut std::ffi::c_void, FsCountFn>(fcount)) },
         }
     }
 }
@@ -393,7 +400,18 @@ fn main() {
     let mut c = [0u64; 9];
     let mut names = String::new();
     let mut flags = 0;
+    let mut fs_names = String::new();
+    let mut fs_count = 0u64;
     unsafe {
+        if let Some(f) = shim.fs_names {
+            let p = f();
+            if !p.is_null() {
+                fs_names = std::ffi::CStr::from_ptr(p).to_string_lossy().into_owned();
+            }
+        }
+        if let Some(f) = shim.fs_count {
+            fs_count = f();
+        }
         if let Some(f) = shim.counters {
             f(c.as_mut_ptr(), 9);
         }
@@ -408,6 +426,6 @@ fn main() {
         }
     }
     let cs: Vec<String> = c.iter().map(|x| x.to_string()).collect();
-    writeln!(out, "S {} {} {}", cs.join(" "), esc(&names), flags).unwrap();
+    writeln!(out, "S {} {} {} {} {}", cs.join(" "), esc(&names), flags, fs_count, esc(&fs_names)).unwrap();
     out.flush().unwrap();
 }
